@@ -11,7 +11,16 @@ Open Scope list_scope.
    (setup_import) and overwritten through the alias SETUP hands to set_coords *)
 Definition known_exceptions : list cid := ["simulators.minor_servos.System"].
 
-Definition checked_table : table := restrict known_exceptions ShrSharing.gen_table.
+(* the whole generated table when it passes (the exceptions are then vacuous: this is the case
+   once fix 20 is in the tree), else the table without the classes of the known findings *)
+Definition checked_table : table :=
+  if sharing_ok ShrSharing.gen_table then ShrSharing.gen_table
+  else restrict known_exceptions ShrSharing.gen_table.
+
+(* which of the two it is on this run (printed into the build log / evidence) *)
+Definition exceptions_in_force : list cid :=
+  if sharing_ok ShrSharing.gen_table then [] else known_exceptions.
+Eval vm_compute in exceptions_in_force.
 
 (* re-checked on every run against the regenerated table: a new class-level mutable that is
    mutated through an instance, an __init__ that stops rebinding one, a module-level object that
